@@ -325,7 +325,9 @@ func (w *World) runRandom(c Case) {
 
 // finish: quiescence check, drain (clock far ahead), quiescence check, Close, final check.
 func (w *World) finish() {
+	w.yieldMu.Lock()
 	w.yield = nil
+	w.yieldMu.Unlock()
 	if w.settleOr("after-ops") {
 		w.quiet()
 	}
